@@ -33,7 +33,9 @@ from typing import Any, Dict, List, Optional, Tuple
 
 from .. import coqio as c
 
-WORDS = ["spam", "eggs", "ham", "sauce", "cheese", "onion", "stock", "rice", "mix", "dough", "Red Onion", "veg"]
+WORDS = ["spam", "eggs", "ham", "sauce", "cheese", "onion", "stock", "rice", "mix", "dough", "Red Onion", "veg",
+         # words that merely BEGIN with a remainder word / preposition / unit word (legal naked names)
+         "rested dough", "restaurant mix", "Remainders", "often", "gnocchi", "canned beans", "leftovers"]
 STEPS = ["chop", "fry", "boil", "mix", "bake", "stir well", "drain", "grate"]
 REMAINDERS = ["remaining", "remainder", "rest", "left over", "Remaining", "REST", "left  over", "leftover"]
 FREE_UNITS = ["handful", "large handfuls", "big sprigs", "Dash"]
